@@ -4,19 +4,20 @@
 EXTENDS StringClean
 CONSTANTS MaxLen, Part
 
-Alphabet == {"a", "A", "b", "1", "SP", "TAB", "CR", "LF", "EAC"}
+Alphabet == {"a", "A", "b", "1", "SP", "TAB", "CR", "LF", "EAC", "NB"}
 Flags == [cs : BOOLEAN, strip : BOOLEAN, stripAll : BOOLEAN, cleanSpaces : BOOLEAN]
-Expects == { <<"a", "SP", "b">>, <<"A", "b">>, <<"a">>, <<"a", "SP", "SP", "b">>, <<"SP", "a">>, <<"EAC", "1">>, <<>> }
+Expects == { <<"a", "SP", "b">>, <<"A", "b">>, <<"a">>, <<"a", "SP", "SP", "b">>, <<"SP", "a">>, <<"EAC", "1">>, <<>>,
+             <<"a", "NB", "b">>, <<"a", "NB", "NB", "b">> }
 
 Insert(s, i, x) == SubSeq(s, 1, i) \o <<x>> \o SubSeq(s, i + 1, Len(s))      \* i in 0..Len(s)
 Delete(s, i) == SubSeq(s, 1, i - 1) \o SubSeq(s, i + 1, Len(s))
 Subst(s, i, x) == [s EXCEPT ![i] = x]
-Edits(s) == {Insert(s, i, x) : i \in 0..Len(s), x \in {"SP", "TAB", "CR", "LF", "b"}}
+Edits(s) == {Insert(s, i, x) : i \in 0..Len(s), x \in {"SP", "TAB", "CR", "LF", "b", "NB"}}
             \cup {Delete(s, i) : i \in 1..Len(s)}
             \cup {Subst(s, i, x) : i \in 1..Len(s), x \in {"a", "A", "b", "SP"}}
             \cup {<<"CR", "LF">> \o s, s \o <<"LF", "CR">>, s \o <<"CR", "LF", "CR">>, <<"LF", "CR", "LF">> \o s}
 Inputs == IF Part = "match" THEN AllSeqsUpTo(Alphabet, MaxLen) \cup UNION {Edits(e) : e \in Expects}
-          ELSE IF Part = "any" THEN AllSeqsUpTo({"a", "b", "SP", "TAB"}, MaxLen + 1)
+          ELSE IF Part = "any" THEN AllSeqsUpTo({"a", "b", "SP", "TAB", "NB"}, MaxLen + 1)
           ELSE AllSeqsUpTo({"a", "b", "SP", "A", "1"}, MaxLen)
 
 Base == [acceptAny |-> FALSE, acceptNonempty |-> FALSE, minLength |-> 0, minWords |-> 0, explainMin |-> "err",
